@@ -50,6 +50,10 @@ def cases(prop, shard, nshards, seed, tier, want_models=False):
         for fn in ("tests/4gqj-assembly1.cif", "tests/4WTI_1_T-P.cif", "tests/1DFU_1_M-N.cif", "tests/184D.cif", "tests/1JJP.cif"):
             if mine():
                 yield {"family": "hostile-auth-collide", "file": fn, "ops": [{"op": "auth-collide"}]}
+    # degenerate inputs: nothing to annotate (no residue, one residue, one donor/acceptor atom at most, no base atoms)
+    for hops in ([{"op": "first-n", "n": 0}], [{"op": "first-n", "n": 1}], [{"op": "backbone-only"}], [{"op": "first-n", "n": 2}, {"op": "thin-atoms", "seed": "d", "frac": 1.0, "names": ["N1", "N2", "N3", "N4", "N6", "N7", "O2", "O4", "O6", "O2'", "O4'", "OP1", "OP2", "O3'", "O5'"]}]):
+        if mine():
+            yield {"family": "degenerate-" + hops[-1]["op"], "file": "tests/1A1T_1_B.cif", "ops": hops}
     # through the real reader: the text of a structure in which a few residues have a nearly superposed second copy
     # (a disorder deposited as two chains, as B/D of 488d.pdb) with equal or unequal occupancies - what the reader
     # keeps of the two copies is what gets annotated
